@@ -14,7 +14,7 @@ for ln in lines:
         continue
     prop = m.group(1)
     src = open(f'/verif/coq/theories/properties/{prop}.v').read()
-    names = re.findall(r'^Theorem\s+(\w+)', src, flags=re.M)
+    names = re.findall(r'^\s*Theorem\s+(\w+)', src, flags=re.M)
     short = [n[len(prop) + 1:] if n.startswith(prop + '_') else n for n in names]
     out.append(f'| {prop} | {m.group(2)} | {len(short)}: {", ".join(short)} | {m.group(4)}')
 open(p, 'w').write(s[:a] + '\n'.join(out) + s[b:])
